@@ -275,7 +275,26 @@ theorem counted_logged (s : State) (h : Counted s) : Counted (logged s) := h
 
 theorem quotaOf_logged (cfg : Cfg) (op : Op) (s : State) : quotaOf cfg op (logged s) = quotaOf cfg op s := rfl
 
-/-- **every micro-step of every thread preserves the invariant** -/
+@[simp] theorem callMicro_op (I : Impl) (cfg : Cfg) (o : Op) (pc : Pc) (s : State) (l : Local) :
+    callMicro I cfg (.op o) pc s l = I.micro cfg o pc s l := rfl
+@[simp] theorem callMicro_recover (I : Impl) (cfg : Cfg) (pc : Pc) (s : State) (l : Local) :
+    callMicro I cfg .recover pc s l = I.recMicro cfg pc s l := rfl
+@[simp] theorem callStart_fixed (c : Call) : callStart fixed c = .lock := by cases c <;> rfl
+@[simp] theorem fixed_recMicro : fixed.recMicro = recMicro := rfl
+
+theorem recMicro_lock (cfg : Cfg) (s : State) (l : Local) :
+    recMicro cfg .lock s l = (s, l, .ok .scan) := rfl
+theorem recMicro_scan (cfg : Cfg) (s : State) (l : Local) :
+    recMicro cfg .scan s l
+      = (s, { l with scanN := s.kv.nodes.length, scanE := s.kv.edges.length }, .ok .count) := rfl
+theorem recMicro_count (cfg : Cfg) (hreg : cfg.registered = true) (s : State) (l : Local) :
+    recMicro cfg .count s l = ({ s with usageN := l.scanN, usageE := l.scanE }, l, .ok .ret) := by
+  simp [recMicro, hreg]
+theorem recMicro_ret (cfg : Cfg) (s : State) (l : Local) :
+    recMicro cfg .ret s l = (s, l, .ok .done) := rfl
+
+/-- **every micro-step of every thread preserves the invariant** — `persist_*` calls and
+`recover` calls alike -/
 theorem step_inv (cfg : Cfg) (hreg : cfg.registered = true) (sys : Sys) (t : Nat) (h : Inv cfg sys) :
     Inv cfg (stepThread fixed cfg sys t) := by
   cases hth : sys.threads[t]? with
@@ -283,35 +302,42 @@ theorem step_inv (cfg : Cfg) (hreg : cfg.registered = true) (sys : Sys) (t : Nat
   | some th =>
     cases hprog : th.prog with
     | nil => simp [stepThread, hth, hprog]; exact h
-    | cons op rest =>
+    | cons c rest =>
       cases hpc : th.pc with
       | none =>
         -- the thread is parked before its next call: the step acquires the lock
         by_cases hl : sys.lock = none
-        · have hen : ¬ (th.pc.getD (fixed.start op) = .lock ∧ sys.lock ≠ none) := by simp [hl]
-          rw [stepThread_eq fixed cfg sys t th op rest hth hprog hen]
+        · have hen : ¬ (th.pc.getD (callStart fixed c) = .lock ∧ sys.lock ≠ none) := by simp [hl]
+          rw [stepThread_eq fixed cfg sys t th c rest hth hprog hen]
           have hoth : ∀ i th' pc, i ≠ t → sys.threads[i]? = some th' → th'.pc = some pc → False := by
             intro i th' pc _ hi hp
             have := (h.mid i th' pc hi hp).1
             rw [hl] at this; simp at this
           have hc := h.free hl
-          simp only [hpc, Option.getD_none, fixed_start, start, fixed_micro, micro_lock, if_true]
-          cases hk : op.kind
-          · simp only [show (Pc.check = Pc.done) = False from by simp, if_false]
-            exact inv_cont cfg sys t th op rest _ _ _ hth hprog h.wf h.within hc hoth
-          · simp only [show (Pc.log = Pc.done) = False from by simp, if_false]
-            exact inv_cont cfg sys t th op rest _ _ _ hth hprog h.wf h.within
-              ⟨hc, fun hk' => by rw [hk] at hk'; simp at hk'⟩ hoth
-          · simp only [show (Pc.log = Pc.done) = False from by simp, if_false]
-            exact inv_cont cfg sys t th op rest _ _ _ hth hprog h.wf h.within
-              ⟨hc, fun hk' => by rw [hk] at hk'; simp at hk'⟩ hoth
-        · have hen : th.pc.getD (fixed.start op) = .lock ∧ sys.lock ≠ none := by
-            simp [hpc, start, hl]
-          rw [stepThread_disabled fixed cfg sys t th op rest hth hprog hen]
+          simp only [hpc, Option.getD_none, callStart_fixed, if_true]
+          cases c with
+          | op op =>
+            simp only [callMicro_op, fixed_micro, micro_lock]
+            cases hk : op.kind
+            · simp only [show (Pc.check = Pc.done) = False from by simp, if_false]
+              exact inv_cont cfg sys t th _ rest _ _ _ hth hprog h.wf h.within hc hoth
+            · simp only [show (Pc.log = Pc.done) = False from by simp, if_false]
+              exact inv_cont cfg sys t th _ rest _ _ _ hth hprog h.wf h.within
+                ⟨hc, fun hk' => by rw [hk] at hk'; simp at hk'⟩ hoth
+            · simp only [show (Pc.log = Pc.done) = False from by simp, if_false]
+              exact inv_cont cfg sys t th _ rest _ _ _ hth hprog h.wf h.within
+                ⟨hc, fun hk' => by rw [hk] at hk'; simp at hk'⟩ hoth
+          | recover =>
+            simp only [callMicro_recover, fixed_recMicro, recMicro_lock,
+              show (Pc.scan = Pc.done) = False from by simp, if_false]
+            exact inv_cont cfg sys t th _ rest _ _ _ hth hprog h.wf h.within trivial hoth
+        · have hen : th.pc.getD (callStart fixed c) = .lock ∧ sys.lock ≠ none := by
+            simp [hpc, hl]
+          rw [stepThread_disabled fixed cfg sys t th c rest hth hprog hen]
           exact h
       | some pc =>
         -- the thread is inside a call: it holds the lock
-        obtain ⟨hlock, op', rest', hprog', hm⟩ := h.mid t th pc hth hpc
+        obtain ⟨hlock, c', rest', hprog', hm⟩ := h.mid t th pc hth hpc
         rw [hprog] at hprog'
         simp only [List.cons.injEq] at hprog'
         obtain ⟨hop, hrest⟩ := hprog'
@@ -322,61 +348,123 @@ theorem step_inv (cfg : Cfg) (hreg : cfg.registered = true) (sys : Sys) (t : Nat
           rw [hlock] at this
           simp only [Option.some.injEq] at this
           exact hit this.symm
-        cases pc with
-        | lock => exact absurd hm id
-        | done => exact absurd hm id
-        | check =>
-          have hen : ¬ (th.pc.getD (fixed.start op) = .lock ∧ sys.lock ≠ none) := by simp [hpc]
-          rw [stepThread_eq fixed cfg sys t th op rest hth hprog hen]
-          simp only [hpc, Option.getD_some, fixed_micro, micro_check,
-            show (Pc.check = Pc.lock) = False from by simp, if_false, hlock]
-          cases hq : quotaOf cfg op sys.shared with
-          | ok =>
-            simp only [show (Pc.log = Pc.done) = False from by simp, if_false]
-            exact inv_cont cfg sys t th op rest _ _ _ hth hprog h.wf h.within ⟨hm, fun _ => hq⟩ hoth
-          | err e =>
-            exact inv_finish cfg sys t th op rest _ _ hth h.wf h.within hm hoth
-        | log =>
-          have hen : ¬ (th.pc.getD (fixed.start op) = .lock ∧ sys.lock ≠ none) := by simp [hpc]
-          rw [stepThread_eq fixed cfg sys t th op rest hth hprog hen]
-          simp only [hpc, Option.getD_some, fixed_micro, micro_log,
-            show (Pc.log = Pc.lock) = False from by simp, if_false, hlock,
-            show (Pc.store = Pc.done) = False from by simp]
-          exact inv_cont cfg sys t th op rest _ _ _ hth hprog h.wf h.within
-            ⟨counted_logged _ hm.1, fun hk => by rw [quotaOf_logged]; exact hm.2 hk⟩ hoth
-        | store =>
-          have hen : ¬ (th.pc.getD (fixed.start op) = .lock ∧ sys.lock ≠ none) := by simp [hpc]
-          rw [stepThread_eq fixed cfg sys t th op rest hth hprog hen]
-          simp only [hpc, Option.getD_some, fixed_micro, micro_store,
-            show (Pc.store = Pc.lock) = False from by simp, if_false, hlock]
-          have hwf' : WF (stored op sys.shared).kv := wf_apply _ _ h.wf
-          have hw' : Within cfg (stored op sys.shared).kv :=
-            within_apply cfg op sys.shared h.wf hm.1 h.within hm.2
-          cases hk : op.kind
-          · simp only [show (Pc.count = Pc.done) = False from by simp, if_false]
-            exact inv_cont cfg sys t th op rest _ _ _ hth hprog hwf' hw'
-              (counted_after op sys.shared h.wf hm.1) hoth
-          · simp only [show (Pc.count = Pc.done) = False from by simp, if_false]
-            exact inv_cont cfg sys t th op rest _ _ _ hth hprog hwf' hw'
-              (counted_after op sys.shared h.wf hm.1) hoth
-          · simp only [show (Pc.ret = Pc.done) = False from by simp, if_false]
-            exact inv_cont cfg sys t th op rest _ _ _ hth hprog hwf' hw'
-              (counted_stored_update op sys.shared hk h.wf hm.1) hoth
-        | count =>
-          have hen : ¬ (th.pc.getD (fixed.start op) = .lock ∧ sys.lock ≠ none) := by simp [hpc]
-          rw [stepThread_eq fixed cfg sys t th op rest hth hprog hen]
-          simp only [hpc, Option.getD_some, fixed_micro, micro_count cfg hreg,
-            show (Pc.count = Pc.lock) = False from by simp, if_false, hlock,
-            show (Pc.ret = Pc.done) = False from by simp]
-          have hkv : (counted op th.loc.existed sys.shared).kv = sys.shared.kv := counted_kv _ _ _
-          exact inv_cont cfg sys t th op rest _ _ _ hth hprog (by rw [hkv]; exact h.wf)
-            (by rw [hkv]; exact h.within) hm hoth
-        | ret =>
-          have hen : ¬ (th.pc.getD (fixed.start op) = .lock ∧ sys.lock ≠ none) := by simp [hpc]
-          rw [stepThread_eq fixed cfg sys t th op rest hth hprog hen]
-          simp only [hpc, Option.getD_some, fixed_micro, micro_ret,
-            show (Pc.ret = Pc.lock) = False from by simp, if_false, hlock, if_true]
-          exact inv_finish cfg sys t th op rest _ _ hth h.wf h.within hm hoth
+        have hne : pc ≠ .lock := by
+          intro e; subst e; cases c <;> exact absurd hm id
+        have hen : ¬ (th.pc.getD (callStart fixed c) = .lock ∧ sys.lock ≠ none) := by simp [hpc, hne]
+        rw [stepThread_eq fixed cfg sys t th c rest hth hprog hen]
+        simp only [hpc, Option.getD_some, hne, if_false, hlock]
+        cases c with
+        | op op =>
+          simp only [callMicro_op, fixed_micro]
+          cases pc with
+          | lock => exact absurd hm id
+          | done => exact absurd hm id
+          | scan => exact absurd hm id
+          | check =>
+            simp only [micro_check]
+            cases hq : quotaOf cfg op sys.shared with
+            | ok =>
+              simp only [show (Pc.log = Pc.done) = False from by simp, if_false]
+              exact inv_cont cfg sys t th _ rest _ _ _ hth hprog h.wf h.within ⟨hm, fun _ => hq⟩ hoth
+            | err e =>
+              exact inv_finish cfg sys t th _ rest _ _ hth h.wf h.within hm hoth
+          | log =>
+            simp only [micro_log, show (Pc.store = Pc.done) = False from by simp, if_false]
+            exact inv_cont cfg sys t th _ rest _ _ _ hth hprog h.wf h.within
+              ⟨counted_logged _ hm.1, fun hk => by rw [quotaOf_logged]; exact hm.2 hk⟩ hoth
+          | store =>
+            simp only [micro_store]
+            have hwf' : WF (stored op sys.shared).kv := wf_apply _ _ h.wf
+            have hw' : Within cfg (stored op sys.shared).kv :=
+              within_apply cfg op sys.shared h.wf hm.1 h.within hm.2
+            cases hk : op.kind
+            · simp only [show (Pc.count = Pc.done) = False from by simp, if_false]
+              exact inv_cont cfg sys t th _ rest _ _ _ hth hprog hwf' hw'
+                (counted_after op sys.shared h.wf hm.1) hoth
+            · simp only [show (Pc.count = Pc.done) = False from by simp, if_false]
+              exact inv_cont cfg sys t th _ rest _ _ _ hth hprog hwf' hw'
+                (counted_after op sys.shared h.wf hm.1) hoth
+            · simp only [show (Pc.ret = Pc.done) = False from by simp, if_false]
+              exact inv_cont cfg sys t th _ rest _ _ _ hth hprog hwf' hw'
+                (counted_stored_update op sys.shared hk h.wf hm.1) hoth
+          | count =>
+            simp only [micro_count cfg hreg, show (Pc.ret = Pc.done) = False from by simp, if_false]
+            have hkv : (counted op th.loc.existed sys.shared).kv = sys.shared.kv := counted_kv _ _ _
+            exact inv_cont cfg sys t th _ rest _ _ _ hth hprog (by rw [hkv]; exact h.wf)
+              (by rw [hkv]; exact h.within) hm hoth
+          | ret =>
+            simp only [micro_ret, if_true]
+            exact inv_finish cfg sys t th _ rest _ _ hth h.wf h.within hm hoth
+        | recover =>
+          simp only [callMicro_recover, fixed_recMicro]
+          cases pc with
+          | lock => exact absurd hm id
+          | done => exact absurd hm id
+          | check => exact absurd hm id
+          | log => exact absurd hm id
+          | store => exact absurd hm id
+          | scan =>
+            simp only [recMicro_scan, show (Pc.count = Pc.done) = False from by simp, if_false]
+            exact inv_cont cfg sys t th _ rest _ _ _ hth hprog h.wf h.within ⟨rfl, rfl⟩ hoth
+          | count =>
+            simp only [recMicro_count cfg hreg, show (Pc.ret = Pc.done) = False from by simp, if_false]
+            exact inv_cont cfg sys t th _ rest _ _ _ hth hprog h.wf h.within
+              (show Counted _ from ⟨hm.1, hm.2⟩) hoth
+          | ret =>
+            simp only [recMicro_ret, if_true]
+            exact inv_finish cfg sys t th _ rest _ _ hth h.wf h.within hm hoth
+
+/-- a call made while nobody else is inside one (sequentially): the state stays
+well-formed, within quota and exactly counted; a creation is accepted exactly when the
+(exact) counter leaves room -/
+theorem seq_call (cfg : Cfg) (hreg : cfg.registered = true) (op : Op) (s : State)
+    (hwf : WF s.kv) (hc : Counted s) (hw : Within cfg s.kv) :
+    WF (traceOp fixed cfg op s).final.kv ∧ Counted (traceOp fixed cfg op s).final
+    ∧ Within cfg (traceOp fixed cfg op s).final.kv
+    ∧ (op.kind = .create → (traceOp fixed cfg op s).result = quotaOf cfg op s) := by
+  rw [traceOp_fixed cfg hreg]
+  have hcl : Counted (logged s) := hc
+  cases hk : op.kind
+  · cases hq : quotaOf cfg op s with
+    | err e => exact ⟨hwf, hc, hw, fun _ => rfl⟩
+    | ok =>
+      refine ⟨?_, ?_, ?_, fun _ => rfl⟩
+      · simp only [counted_kv, stored_kv, logged_kv]; exact wf_apply _ _ hwf
+      · exact counted_after op (logged s) hwf hcl
+      · simp only [counted_kv, stored_kv, logged_kv]
+        exact within_apply cfg op (logged s) hwf hcl hw (fun _ => hq)
+  · refine ⟨?_, ?_, ?_, fun h => by simp at h⟩
+    · simp only [counted_kv, stored_kv, logged_kv]; exact wf_apply _ _ hwf
+    · exact counted_after op (logged s) hwf hcl
+    · simp only [counted_kv, stored_kv, logged_kv]
+      exact within_apply cfg op (logged s) hwf hcl hw (fun h => by rw [hk] at h; simp at h)
+  · refine ⟨?_, ?_, ?_, fun h => by simp at h⟩
+    · simp only [stored_kv, logged_kv]; exact wf_apply _ _ hwf
+    · exact counted_stored_update op (logged s) hk hwf hcl
+    · simp only [stored_kv, logged_kv]
+      exact within_apply cfg op (logged s) hwf hcl hw (fun h => by rw [hk] at h; simp at h)
+
+theorem quotaOf_probe (cfg : Cfg) (hreg : cfg.registered = true) (hen : cfg.enabled = true) (s : State)
+    (hc : Counted s) :
+    quotaOf cfg probeOp s = if room cfg.maxNodes s.kv.nodes.length then .ok else .err .quota := by
+  unfold quotaOf checkQuota room
+  simp only [probeOp, Op.onNodes, if_true, hreg, hen, Bool.not_true, Bool.false_eq_true, if_false]
+  rw [hc.1]
+  cases cfg.maxNodes with
+  | none => rfl
+  | some m =>
+    simp only
+    by_cases h : m ≤ s.kv.nodes.length
+    · have : ¬ s.kv.nodes.length < m := by omega
+      simp [h, this]
+    · have : s.kv.nodes.length < m := by omega
+      simp [h, this]
+
+theorem probe_edges (cfg : Cfg) (hreg : cfg.registered = true) (s : State) :
+    (traceOp fixed cfg probeOp s).final.kv.edges = s.kv.edges := by
+  rw [traceOp_fixed cfg hreg]
+  simp only [probeOp, Op.kind]
+  cases quotaOf cfg (.createNode 99 [] []) s <;> simp [KV.apply]
 
 theorem run_inv (cfg : Cfg) (hreg : cfg.registered = true) (sched : List Nat) (sys : Sys)
     (h : Inv cfg sys) : Inv cfg (run fixed cfg sys sched) := by
